@@ -120,6 +120,26 @@ pub fn eval_parsers_inner(c: &ParserCase) -> Outcome {
             let _ = (x.samples(), x.seconds());
         }
     });
+    call!("api::codec_names_from_str", {
+        // the FromStr impls of the codec enums (also behind the CLI's --video-codec / --audio-codec): any text, in particular
+        // names whose multi-byte characters straddle the positions a prefix test would slice at
+        let s = String::from_utf8_lossy(d);
+        let tail: String = s.chars().take(6).collect();
+        let _ = s.parse::<AudioCodec>().map_err(|e| format!("{}", e));
+        let _ = s.parse::<VideoCodec>().map_err(|e| format!("{}", e));
+        for pre in ["", "a", "aa", "aac", "aac-", "AAC-h", "op", "opus", "h", "h26", "h264", "av", "vp", "none"] {
+            let t = format!("{}{}", pre, tail);
+            let _ = t.parse::<AudioCodec>().map_err(|e| format!("{}", e));
+            let _ = t.parse::<VideoCodec>().map_err(|e| format!("{}", e));
+        }
+        for ch in ['\u{e9}', '\u{2013}', '\u{65e5}', '\u{1f600}', '\u{ff0d}'] {
+            for pre in ["", "a", "aa", "aac", "aac-", "aac-h", "h2", "vp9", "opu"] {
+                let t = format!("{}{}{}", pre, ch, tail);
+                let _ = t.parse::<AudioCodec>().map_err(|e| format!("{}", e));
+                let _ = t.parse::<VideoCodec>().map_err(|e| format!("{}", e));
+            }
+        }
+    });
     call!("opus::opus_frame_count", codec::opus::opus_frame_count(d));
     call!("opus::opus_packet_samples", codec::opus::opus_packet_samples(d));
     call!("opus::is_valid_opus_packet", reached |= codec::opus::is_valid_opus_packet(d));
